@@ -182,6 +182,7 @@ def run_one(job):
                 L2 = o.lAllObjects
                 changed = cur["updates"] > 0 or len(L2) != len(b_ids) or list(map(id, L2)) != b_ids or [t.value for t in L2] != b_vals
                 if changed:
+                    cur["last_changer"] = r.unique_id
                     ed = cur["edits"]
                     tag = str(len(records))
                     tf.write("R %s %s %d %s\n" % (tag, ab.digest(L2), len(ed), " ".join("%d %d %d %s" % (s, e, ln, ab.enc(new)) for s, e, ln, new in ed)))
@@ -199,7 +200,7 @@ def run_one(job):
             if job.get("probe_index", True):
                 try:
                     if o.oTokenMap.dMap != token_map.process_tokens(L).dMap:
-                        out["c18"].append({"rule": r.unique_id, "what": "index differs from recompute"})
+                        out["c18"].append({"rule": r.unique_id, "what": "index differs from recompute", "after": cur.get("last_changer")})
                 except Exception as e:
                     out["c18"].append({"rule": r.unique_id, "what": "index probe raised " + type(e).__name__})
             res = orig(oFile)
@@ -292,7 +293,34 @@ def run_one(job):
                     o3.set_indent_map(oConfig.dIndent)
                     rl3 = rule_list.rule_list(o3, oConfig.severity_list, None)
                     apply_rules.configure_rules(oConfig, rl3, oConfig.dConfig, 0, path)
-                    rl3.fix(7, cla.skip_phase, None)
+                    if n == 0:
+                        # which rule is the first to edit the text VSG has just fixed
+                        st3 = {"rule": None, "first": None}
+
+                        def upd3(self, lUpdates, bUpdateMap, _o3=o3, _st=st3):
+                            if self is _o3 and len(lUpdates) > 0 and _st["first"] is None:
+                                _st["first"] = _st["rule"]
+                            return orig_update(self, lUpdates, bUpdateMap)
+
+                        def wrap3(r, _st=st3):
+                            orig = r.fix
+
+                            def fix(oFile, dFixOnly=None):
+                                _st["rule"] = r.unique_id
+                                return orig(oFile, dFixOnly)
+
+                            r.fix = fix
+
+                        for r3 in rl3.rules:
+                            wrap3(r3)
+                        vcls.update = upd3
+                        try:
+                            rl3.fix(7, cla.skip_phase, None)
+                        finally:
+                            vcls.update = orig_update
+                        out["refix_first_editor"] = st3["first"]
+                    else:
+                        rl3.fix(7, cla.skip_phase, None)
                     nxt = o3.get_lines()[1:]
                     if nxt == cur_lines:
                         break
